@@ -71,6 +71,16 @@ func TypeC(name string) Constraint {
 			return a.Kind == "int" && a.Num.Sign() >= 0 && a.Num.Cmp(big.NewRat(255, 1)) <= 0
 		case "int8":
 			return a.Kind == "int" && a.Num.Cmp(big.NewRat(-128, 1)) >= 0 && a.Num.Cmp(big.NewRat(127, 1)) <= 0
+		case "int16", "int32", "int64", "uint16", "uint32", "uint64":
+			bits := map[string]uint{"int16": 16, "int32": 32, "int64": 64, "uint16": 16, "uint32": 32, "uint64": 64}[name]
+			lo, hi := new(big.Int), new(big.Int)
+			if name[0] == 'u' {
+				hi.Sub(new(big.Int).Lsh(big.NewInt(1), bits), big.NewInt(1))
+			} else {
+				lo.Neg(new(big.Int).Lsh(big.NewInt(1), bits-1))
+				hi.Sub(new(big.Int).Lsh(big.NewInt(1), bits-1), big.NewInt(1))
+			}
+			return a.Kind == "int" && a.Num.Cmp(new(big.Rat).SetInt(lo)) >= 0 && a.Num.Cmp(new(big.Rat).SetInt(hi)) <= 0
 		case "_":
 			return true
 		default:
@@ -190,5 +200,47 @@ func ScalarConstraints(full bool) []Constraint {
 	}
 	cs = append(cs, BoundC("!=", Null()), BoundC("!=", Bool(true)))
 	cs = append(cs, MatchC("=~", "a"), MatchC("=~", "^b"), MatchC("!~", "a"))
+	return cs
+}
+
+// BigInt is an integer atom given by its decimal spelling.
+func BigInt(src string) Atom {
+	n, ok := new(big.Rat).SetString(src)
+	if !ok {
+		panic("model.BigInt: " + src)
+	}
+	return Atom{Kind: "int", Num: n, Src: src}
+}
+
+// WideAtoms are the probe values of the wide-range family: the boundaries of
+// the predeclared integer ranges, their neighbours, and a few small numbers.
+func WideAtoms() []Atom {
+	var as []Atom
+	for _, s := range []string{"-9223372036854775809", "-9223372036854775808", "-9223372036854775807", "-2147483649", "-2147483648", "-32769", "-32768", "-129", "-128", "-1", "0", "1", "3", "5", "7", "8", "9", "127", "128", "255", "256", "500", "32767", "32768", "65535", "65536", "2147483647", "2147483648", "4294967295", "4294967296", "9223372036854775807", "9223372036854775808", "18446744073709551615", "18446744073709551616"} {
+		as = append(as, BigInt(s))
+	}
+	for _, f := range []string{"-1.5", "0.5", "4.5", "8.5"} {
+		as = append(as, Float(f))
+	}
+	as = append(as, Str("a"), Null())
+	return as
+}
+
+// WideConstraints: predeclared ranges, bounds with extreme constants and small
+// bounds; conjunctions of them exercise the bound simplifier where ranges span
+// (almost) the whole of a machine integer type.
+func WideConstraints() []Constraint {
+	var cs []Constraint
+	for _, t := range []string{"int", "number", "float", "uint", "int8", "int16", "int32", "int64", "uint8", "uint16", "uint32", "uint64"} {
+		cs = append(cs, TypeC(t))
+	}
+	for _, b := range []struct{ op, c string }{
+		{">=", "-9223372036854775808"}, {">", "-9223372036854775808"}, {">=", "-9223372036854775809"}, {"<=", "9223372036854775807"}, {"<", "9223372036854775808"},
+		{"<=", "18446744073709551615"}, {">=", "-2147483648"}, {"<=", "4294967295"}, {">=", "-128"}, {"<=", "255"},
+		{"<=", "5"}, {"<", "8"}, {"<", "1"}, {"<=", "9"}, {"<", "7"}, {"<=", "500"}, {">=", "0"}, {">", "3"}, {"!=", "2"}, {"!=", "0"},
+	} {
+		cs = append(cs, BoundC(b.op, BigInt(b.c)))
+	}
+	cs = append(cs, BoundC(">", Float("-9e18")), BoundC("<", Float("9e18")), BoundC("<=", Float("8.5")), BoundC(">=", Float("0.5")))
 	return cs
 }
